@@ -72,6 +72,64 @@ class Plain(Base):
     name: Mapped[str | None]
 
 
+class FalsyB(Base):
+    """instances are FALSY while ``flag`` is 0 / NULL / not loaded (``__bool__``): code that
+    truth-tests an instance instead of comparing with None misbehaves exactly here"""
+
+    __tablename__ = "falsyb"
+    id: Mapped[int] = mapped_column(primary_key=True)
+    name: Mapped[str | None]
+    flag: Mapped[int | None]
+
+    def __bool__(self):
+        return bool(self.__dict__.get("flag"))
+
+
+class FalsyL(Base):
+    """same, through ``__len__`` only (no ``__bool__``)"""
+
+    __tablename__ = "falsyl"
+    id: Mapped[int] = mapped_column(primary_key=True)
+    name: Mapped[str | None]
+    flag: Mapped[int | None]
+
+    def __len__(self):
+        return self.__dict__.get("flag") or 0
+
+
+def _cascade_pair(suffix, cascade):
+    """Parent/Child pair with a given cascade preset on Parent.children (C35 cascade worlds)"""
+    ptab, ctab = "parent" + suffix.lower(), "child" + suffix.lower()
+    P_ = type(
+        "Parent" + suffix,
+        (Base,),
+        dict(
+            __tablename__=ptab,
+            __annotations__={"id": Mapped[int], "name": Mapped[str | None]},
+            id=mapped_column(primary_key=True),
+            name=mapped_column(),
+            children=relationship("Child" + suffix, back_populates="parent", cascade=cascade, order_by="Child%s.id" % suffix),
+        ),
+    )
+    C_ = type(
+        "Child" + suffix,
+        (Base,),
+        dict(
+            __tablename__=ctab,
+            __annotations__={"id": Mapped[int], "name": Mapped[str | None], "parent_id": Mapped[int | None]},
+            id=mapped_column(primary_key=True),
+            name=mapped_column(),
+            parent_id=mapped_column(ForeignKey(ptab + ".id")),
+            parent=relationship("Parent" + suffix, back_populates="children"),
+        ),
+    )
+    return P_, C_
+
+
+ParentSU, ChildSU = _cascade_pair("SU", "save-update")
+ParentDO, ChildDO = _cascade_pair("DO", "all, delete-orphan")
+
+
 class Person(Base):
     __tablename__ = "person"
     id: Mapped[int] = mapped_column(primary_key=True)
@@ -106,9 +164,15 @@ class NItem(Base):
     node: Mapped["NNode | None"] = relationship(back_populates="items")
 
 
-CLASSES = dict(Plain=Plain, Parent=Parent, Child=Child, Person=Person, Engineer=Engineer, Manager=Manager, NNode=NNode, NItem=NItem)
-TABLES = ("plain", "parent", "child", "person", "engineer", "nnode", "nitem")
+CLASSES = dict(FalsyB=FalsyB, FalsyL=FalsyL, ParentSU=ParentSU, ChildSU=ChildSU, ParentDO=ParentDO, ChildDO=ChildDO, Plain=Plain, Parent=Parent, Child=Child, Person=Person, Engineer=Engineer, Manager=Manager, NNode=NNode, NItem=NItem)
+TABLES = ("falsyb", "falsyl", "parentsu", "childsu", "parentdo", "childdo", "plain", "parent", "child", "person", "engineer", "nnode", "nitem")
 TABLE_COLS = dict(
+    falsyb=("id", "name", "flag"),
+    falsyl=("id", "name", "flag"),
+    parentsu=("id", "name"),
+    childsu=("id", "name", "parent_id"),
+    parentdo=("id", "name"),
+    childdo=("id", "name", "parent_id"),
     plain=("id", "name"),
     parent=("id", "name"),
     child=("id", "name", "parent_id"),
@@ -119,6 +183,12 @@ TABLE_COLS = dict(
 )
 # column attributes per class (harness view), primary key attribute first
 COLATTRS = dict(
+    FalsyB=("id", "name", "flag"),
+    FalsyL=("id", "name", "flag"),
+    ParentSU=("id", "name"),
+    ChildSU=("id", "name", "parent_id"),
+    ParentDO=("id", "name"),
+    ChildDO=("id", "name", "parent_id"),
     Plain=("id", "name"),
     Parent=("id", "name"),
     Child=("id", "name", "parent_id"),
@@ -128,8 +198,8 @@ COLATTRS = dict(
     NNode=("code", "val"),
     NItem=("id", "node_code"),
 )
-PKATTR = dict(Plain="id", Parent="id", Child="id", Person="id", Engineer="id", Manager="id", NNode="code", NItem="id")
-RELATTRS = dict(Plain=(), Parent=("children",), Child=("parent",), NNode=("items",), NItem=("node",), Person=(), Engineer=(), Manager=())
+PKATTR = dict(FalsyB="id", FalsyL="id", ParentSU="id", ChildSU="id", ParentDO="id", ChildDO="id", Plain="id", Parent="id", Child="id", Person="id", Engineer="id", Manager="id", NNode="code", NItem="id")
+RELATTRS = dict(FalsyB=(), FalsyL=(), ParentSU=("children",), ChildSU=("parent",), ParentDO=("children",), ChildDO=("parent",), Plain=(), Parent=("children",), Child=("parent",), NNode=("items",), NItem=("node",), Person=(), Engineer=(), Manager=())
 
 LIFECYCLE_EVENTS = (
     "transient_to_pending",
@@ -372,7 +442,7 @@ class World:
         self.initial = {}
         for name, clsname, kw in cfg.get("universe", ()):
             self.construct(name, clsname, kw)
-            self.initial[name] = tuple(sorted((k, v) for k, v in kw.items() if not (isinstance(v, str) and v.startswith("@"))))
+            self.initial[name] = tuple(sorted((k, v) for k, v in kw.items() if not isinstance(v, (list, tuple)) and not (isinstance(v, str) and v.startswith("@"))))
 
     # ---- bookkeeping
     def name_of(self, obj, born=True):
@@ -474,7 +544,7 @@ class World:
         pk = o.__dict__.get(PKATTR[cn])
         if pk is None and inspect(o).key is not None:
             pk = inspect(o).key[1][0]
-        t = {"Plain": "plain", "Parent": "parent", "Child": "child", "NNode": "nnode", "NItem": "nitem"}.get(cn, "person")
+        t = CLASSES[cn].__table__.name if cn not in ("Engineer", "Manager") else "person"
         return any(r[0] == pk for r in dict(self.session_rows()).get(t, ()))
 
     def op_add_known(self, name, reinit=None):
@@ -509,6 +579,19 @@ class World:
     def op_append(self, name, attr, other):
         getattr(self.objs[name], attr).append(self.objs[other])
 
+    def op_remove_if(self, name, attr, other):
+        """collection.remove(other) when other is a member (list.remove of a non-member is a plain ValueError)"""
+        coll = getattr(self.objs[name], attr)
+        if not any(x is self.objs[other] for x in coll):
+            return "skipped"
+        coll.remove(self.objs[other])
+
+    def op_append_if(self, name, attr, other):
+        coll = getattr(self.objs[name], attr)
+        if any(x is self.objs[other] for x in coll):
+            return "skipped"
+        coll.append(self.objs[other])
+
     def op_remove(self, name, attr, other):
         getattr(self.objs[name], attr).remove(self.objs[other])
 
@@ -529,6 +612,11 @@ class World:
 
     def op_begin_nested(self):
         self.sps.append(self.session.begin_nested())
+
+    def op_begin_nested_nf(self):
+        """begin_nested() inside a no_autoflush block (it must flush all the same)"""
+        with self.session.no_autoflush:
+            self.sps.append(self.session.begin_nested())
 
     def op_sp_rollback(self):
         self.sps.pop().rollback()
